@@ -101,3 +101,13 @@ mod env {
 pub fn all_main_commands() -> Vec<&'static str> {
     vec!["thanm", "thstd"]
 }
+
+/// Hooks for external verification harnesses.  Only compiled with `--features truth_verif`.
+#[cfg(feature = "truth_verif")]
+#[doc(hidden)]
+pub mod verif_hooks {
+    /// The built-in signature/intrinsic/register-type tables that the CLI loads before compiling.
+    pub fn core_mapfile(emitter: &crate::diagnostic::RootEmitter, game: crate::Game, language: crate::LanguageKey) -> crate::Mapfile {
+        crate::core_mapfiles::core_mapfile(emitter, game, language)
+    }
+}
